@@ -384,9 +384,12 @@ class Lexer(object):
             if self.cur_token.type in ('LPAREN',):
                 # if we encounter a FOR, IF, WHILE, then whatever in
                 # the parentheses are marked.  Otherwise just push
-                # into the inner marker list.
-                if (self.prev_token and
-                        self.prev_token.type in IMPLIED_BLOCK_IDENTIFIER):
+                # into the inner marker list.  Comments and line
+                # terminators between the keyword and the parenthesis
+                # do not count (ES5 7.4).
+                if (self.real_prev_token and
+                        self.real_prev_token.type in
+                        IMPLIED_BLOCK_IDENTIFIER):
                     self.token_stack.append([self.cur_token, []])
                 else:
                     self.token_stack[-1][1].append(self.cur_token)
